@@ -23,6 +23,8 @@ func (x *Exec) rvSort(which string) (string, Sort) {
 		return "RVC", arraySort(SInt, SInt)
 	case "S":
 		return "RVS", arraySort(SInt, SStr)
+	case "X":
+		return "RVX", arraySort(SInt, SInt)
 	}
 	return "RVB", arraySort(SInt, SBool)
 }
@@ -174,7 +176,7 @@ func init() {
 	}
 	libModels["reflect.Value.Set"] = func(x *Exec, st *State, e *ast.CallExpr, a []Value, _ []types.Type) (Value, bool) {
 		d, s := asTerm(a[0]), asTerm(a[1])
-		for _, w := range []string{"I", "F", "C", "S", "B"} {
+		for _, w := range []string{"I", "F", "C", "S", "B", "X"} {
 			x.rvWrite(st, w, d, x.rvRead(st, w, s))
 		}
 		return intLit(0), true
@@ -185,13 +187,39 @@ func init() {
 		}
 		h := heapOfType(at[0])
 		if h == "" {
-			return nil, false
+			// a non-basic value (interface such as constant.Value): its handle is the content
+			rv := x.newRef(st, "rvx")
+			x.rvWrite(st, "X", rv, asTerm(a[0]))
+			st.names["$rvheap:"+rv.S] = "X"
+			return rv, true
 		}
 		rv := x.newRef(st, "rv")
 		st.assume("(= " + rvKindOf(rv).S + " " + intLit(goKind(at[0])).S + ")")
 		x.rvWrite(st, h, rv, asTerm(a[0]))
 		st.names["$rvheap:"+rv.S] = h
 		return rv, true
+	}
+	libModels["reflect.New"] = func(x *Exec, st *State, e *ast.CallExpr, a []Value, _ []types.Type) (Value, bool) {
+		// a pointer value whose Elem is a fresh, zeroed, settable value of the type
+		p := x.newRef(st, "rvp")
+		el := x.newRef(st, "rve")
+		st.assume("(= (rvElem " + p.S + ") " + el.S + ")")
+		st.assume("(= " + rvKindOf(el).S + " (rtKind " + asTerm(a[0]).S + "))")
+		x.rvWrite(st, "I", el, zeroOf(func() Sort {
+			if x.mode == "bv" {
+				return BV(64)
+			}
+			return SInt
+		}()))
+		x.rvWrite(st, "S", el, strLit(""))
+		x.rvWrite(st, "B", el, boolLit(false))
+		return p, true
+	}
+	libModels["reflect.Value.Elem"] = func(x *Exec, st *State, e *ast.CallExpr, a []Value, _ []types.Type) (Value, bool) {
+		return Term{"(rvElem " + asTerm(a[0]).S + ")", SInt}, true
+	}
+	libModels["reflect.Value.Type"] = func(x *Exec, st *State, e *ast.CallExpr, a []Value, _ []types.Type) (Value, bool) {
+		return Term{"(rvType " + asTerm(a[0]).S + ")", SInt}, true
 	}
 	libModels["reflect.Value.Convert"] = func(x *Exec, st *State, e *ast.CallExpr, a []Value, _ []types.Type) (Value, bool) {
 		src, typ := asTerm(a[0]), asTerm(a[1])
